@@ -104,7 +104,7 @@ def sys_part(ctx, quick):
             port = sk.getsockname()[1]
         rng = ctx.rng.fork("sysdns")
         cases = []
-        cmds = ["SRV tcp:nonexistent-%d.verif.test:0" % ctx.seed, "SRV tls:nonexistent-%d.verif.test:0" % ctx.seed]
+        cmds = ["SRV tcp:nonexistent-%d.verif.test:0" % ctx.vseed, "SRV tls:nonexistent-%d.verif.test:0" % ctx.vseed]
         exp = [("SRV",), ("SRV",)]
         n = 0
         for k in range(10 if quick else 120):
@@ -117,7 +117,7 @@ def sys_part(ctx, quick):
                 beh = ["refuse", "silent", "accept"]
             alg = rng.choice(["single", "sequential", "sequential", "happy_eyeballs"])
             proto = rng.choice(["tcp", "tcp", "btcp"])     # tls: same btcp/tconnect code below, but the handshake needs a TLS peer
-            name = "c%d-%d.verif.test" % (ctx.seed, n)
+            name = "c%d-%d.verif.test" % (ctx.vseed, n)
             v6 = alg == "happy_eyeballs" and rng.chance(1, 2)
             resp.table[name] = {"A": addrs, "AAAA": ["::1"] if v6 else []}
             local = "-"
@@ -131,11 +131,11 @@ def sys_part(ctx, quick):
             exp.append(("CON", alg, addrs, beh, local if not v6 else "-", proto, v6))
             cmds.append("RESET")
             exp.append(("L",))
-        cmds.append("CON tcp sequential nonexistent-%d.verif.test %d - 0.25" % (ctx.seed, port))
+        cmds.append("CON tcp sequential nonexistent-%d.verif.test %d - 0.25" % (ctx.vseed, port))
         exp.append(("NX",))
         # an answer too large for a UDP reply (truncated -> the resolver retries over TCP): 40 addresses, the 40th accepts
         big = ["127.0.240.%d" % (i + 1) for i in range(40)]
-        bname = "big%d.verif.test" % ctx.seed
+        bname = "big%d.verif.test" % ctx.vseed
         resp.table[bname] = {"A": big, "AAAA": []}
         cmds.append("LISTEN %s %d accept" % (big[0], port))
         exp.append(("L",))
